@@ -37,7 +37,7 @@ import torch
 from tensordict import TensorDict
 
 from rl4co.models.rl.common.utils import RewardScaler
-from rl4co.models.rl.reinforce.baselines import ExponentialBaseline, REINFORCEBaseline, WarmupBaseline
+from rl4co.models.rl.reinforce.baselines import ExponentialBaseline, REINFORCEBaseline, WarmupBaseline, get_reinforce_baseline
 
 from ..core import Partial, Report, pmap, seed_from_env
 
@@ -167,6 +167,11 @@ def configs(tier):
         for n in (1, 2, 4):
             for wb in ([0.8] if quick else [0.8, 0.5]):
                 out.append(("warmup_baseline", dict(inner=inner, n_epochs=n, warmup_exp_beta=wb), 5 if quick else 6))
+    # built by name through get_reinforce_baseline (evals during the warm-up phase only: the rollout baseline behind it
+    # needs a policy and a dataset and is C16's / C17's business)
+    for n in (1, 2):
+        for wb in (0.8, 0.5, 0.3):
+            out.append(("warmup_factory", dict(inner="factory", n_epochs=n, warmup_exp_beta=wb), 3 if quick else 4))
     return out
 
 
@@ -175,6 +180,8 @@ def alphabet_for(kind, tier, seed):
         return scaler_alphabet(tier, seed)
     if kind == "exponential_baseline":
         return reward_alphabet(tier, seed)
+    if kind == "warmup_factory":
+        return reward_alphabet(tier, seed, small=True)
     return reward_alphabet(tier, seed, small=True) + ["cb"]
 
 
@@ -440,8 +447,13 @@ def run_warmup(cfg, ops, first_new=0, outcomes=None, notes=None):
     """ops: Batch (= eval) or ("cb", epoch)."""
     n_ep = int(cfg["n_epochs"])
     wbeta = Fraction(float(cfg["warmup_exp_beta"]))
-    inner = stub_cls()() if cfg["inner"] == "stub" else ExponentialBaseline(beta=0.5)
-    w = WarmupBaseline(inner, n_epochs=n_ep, warmup_exp_beta=float(cfg["warmup_exp_beta"]))
+    if cfg["inner"] == "factory":
+        # the way REINFORCE(baseline="rollout", baseline_kwargs=...) builds it: warm-up EMA in front of a rollout baseline
+        w = get_reinforce_baseline("rollout", n_epochs=n_ep, exp_beta=float(cfg["warmup_exp_beta"]))
+        inner = w.baseline
+    else:
+        inner = stub_cls()() if cfg["inner"] == "stub" else ExponentialBaseline(beta=0.5)
+        w = WarmupBaseline(inner, n_epochs=n_ep, warmup_exp_beta=float(cfg["warmup_exp_beta"]))
     spy_i = _Spy(inner.eval)
     inner.eval = spy_i
     spy_w = _Spy(w.warmup_baseline.eval)
@@ -538,7 +550,7 @@ def run_warmup(cfg, ops, first_new=0, outcomes=None, notes=None):
 # exploration
 # --------------------------------------------------------------------------------------------------
 
-RUN = {"reward_scaler": run_scaler, "exponential_baseline": run_exp, "warmup_baseline": run_warmup}
+RUN = {"reward_scaler": run_scaler, "exponential_baseline": run_exp, "warmup_baseline": run_warmup, "warmup_factory": run_warmup}
 
 
 def materialise(kind, alphabet, idx):
@@ -576,9 +588,60 @@ def ops_short(ops):
 def nontrivial(kind, ops):
     if kind == "reward_scaler":
         return sum(op.n for op in ops) >= 2
-    if kind == "exponential_baseline":
+    if kind in ("exponential_baseline", "warmup_factory"):
         return len(ops) >= 2
     return any(isinstance(o, Batch) for o in ops) and any(not isinstance(o, Batch) for o in ops)
+
+
+def unit_hook(item):
+    """The warm-up weight is advanced by REINFORCE.on_train_epoch_end (one epoch_callback per finished epoch).  A real
+    REINFORCE module (TSP-4, tiny attention policy, WarmupBaseline around a stateless stub) is driven through every
+    training history (n_epochs, epochs of a first fit, epochs of a continued fit) within the bounds with a stub trainer
+    that supplies current_epoch / max_epochs exactly as Lightning does; after the end of epoch e the weight must be
+    min(1, (e+1)/n_epochs)."""
+    import types
+
+    from rl4co.envs import TSPEnv
+    from rl4co.models.rl import REINFORCE
+    from rl4co.models.zoo.am import AttentionModelPolicy
+
+    _, tier, seed = item
+    p = Partial()
+    env = TSPEnv(generator_params=dict(num_loc=4))
+    torch.manual_seed(5)
+    policy = AttentionModelPolicy(env_name="tsp", embed_dim=16, num_encoder_layers=1, num_heads=2)
+    top = 3 if tier == "quick" else 4
+    for n_ep in range(1, top + 1):
+        for e1 in range(1, top + 1):
+            for e2 in range(0, 3 if tier == "quick" else 4):
+                w = WarmupBaseline(stub_cls()(), n_epochs=n_ep)
+                m = REINFORCE(env, policy, baseline=w, batch_size=1, train_data_size=2, val_data_size=2, test_data_size=2)
+                m._trainer = None
+                m.setup()
+                hist = [(e, e1) for e in range(e1)] + [(e, e1 + e2) for e in range(e1, e1 + e2)]
+                rec = dict(kind="reinforce_hook", n_epochs=n_ep, first_fit=e1, continued=e2)
+                for e, mx in hist:
+                    m._trainer = types.SimpleNamespace(max_epochs=mx, current_epoch=e, strategy=None)
+                    try:
+                        m.on_train_epoch_end()
+                    except Exception as ex:  # noqa: BLE001
+                        p.violation(dict(property=PID, env="reinforce_hook", config=f"n_epochs={n_ep}", observable=f"crash:{type(ex).__name__}", trigger="epoch_end"), rec, f"REINFORCE.on_train_epoch_end(epoch {e} of {mx}) raised {type(ex).__name__}: {str(ex)[:120]}")
+                        break
+                    finally:
+                        m._trainer = None
+                    want = min(1.0, (e + 1) / n_ep)
+                    p.add(states=1, transitions=1, evaluations=1, distinct_count=1)
+                    p.outcome(f"hook|n={n_ep}|alpha={want:.3f}")
+                    if not _close(float(w.alpha), want, 1e-12):
+                        trig = "last_epoch_of_fit" if e == mx - 1 else "mid_fit"
+                        p.violation(dict(property=PID, env="reinforce_hook", config=f"n_epochs={n_ep}", observable="alpha", trigger=trig), rec, f"REINFORCE + WarmupBaseline(n_epochs={n_ep}): after the end of epoch {e} (fit to max_epochs={mx}; history: {e1} epoch(s){' then continued for ' + str(e2) if e2 else ''}) the warm-up weight is {w.alpha!r}, stated min(1,(epoch+1)/n_epochs) = {want!r}")
+                        break
+    p.sample(dict(object="REINFORCE.on_train_epoch_end -> WarmupBaseline.epoch_callback", n_epochs=f"1..{top}", fits=f"1..{top} epochs, continued by 0..{2 if tier == 'quick' else 3}"), cap=1)
+    return p
+
+
+def dispatch(item):
+    return unit_hook(item) if item[0] == "hook" else unit(item)
 
 
 def unit(item):
@@ -599,7 +662,7 @@ def unit(item):
             tz += 1
         first_new = depth - 1 - tz  # earlier prefixes were judged under a lexicographically smaller leaf
         ops = materialise(kind, alphabet, idx)
-        if kind == "warmup_baseline":
+        if kind in ("warmup_baseline", "warmup_factory"):
             probs, applied, judged = run(cfg, ops, first_new, outcomes, notes)
         else:
             probs, applied, judged = run(cfg, ops, first_new, outcomes)
@@ -656,7 +719,8 @@ def main(tier):
     ]
     seed = seed_from_env()
     items = build_items(tier, seed)
-    rep.merge_all(pmap(unit, items))
+    hook_items = [("hook", tier, seed)] if not os.environ.get("VERIF_ONLY") or "hook" in os.environ.get("VERIF_ONLY") else []
+    rep.merge_all(pmap(dispatch, hook_items + items))
     # every enumerated operation sequence is executed on a fresh REAL object (there is no separate model whose traces
     # would need replaying): all of them count as validated against the implementation
     rep.stats["traces_validated_against_impl"] = rep.stats.get("evaluations", 0)
@@ -666,10 +730,14 @@ def main(tier):
 
 
 def replay(rec):
+    if rec.get("kind") == "reinforce_hook":
+        p = unit_hook(("hook", "thorough", 0))
+        hit = [v for v in p.violations if v["replay"].get("n_epochs") == rec["n_epochs"] and v["replay"].get("first_fit") == rec["first_fit"] and v["replay"].get("continued") == rec["continued"]]
+        return bool(hit), "; ".join(v["msg"] for v in hit[:2]) or "warm-up weight follows the schedule"
     kind = rec["kind"]
     cfg = rec["config"]
     ops = ops_from_json(rec["ops"])
-    if kind == "warmup_baseline":
+    if kind in ("warmup_baseline", "warmup_factory"):
         probs, applied, judged = run_warmup(cfg, ops, 0, None, None)
     else:
         probs, applied, judged = RUN[kind](cfg, ops, 0, None)
